@@ -22,7 +22,7 @@ func init() { register(c12{}) }
 func (c12) ID() string { return "C12" }
 func (c12) Size(tier string) Size {
 	if tier == "thorough" {
-		return Size{Batches: 16, Cases: 90}
+		return Size{Batches: 8, Cases: 40}
 	}
 	return Size{Batches: 4, Cases: 10}
 }
@@ -491,7 +491,7 @@ func (m c12) Case(c *Ctx, r *RNG) {
 		}
 	}
 	// Phase B
-	reps := c.Pick(15, 60)
+	reps := c.Pick(15, 30)
 	kindsSeen := map[string]bool{}
 	for _, G := range []int{2, 4, 8, 16} {
 		for _, procs := range []int{2, 16} {
